@@ -66,13 +66,13 @@ type Global struct {
 
 // Req is an incoming request handed to rules.
 type Req struct {
-	TC     *TC
-	S      *Session
-	Frame  *wire.Frame
-	Msg    *wire.Msg
-	TxName string // transaction name the request belongs to ("" when unknown)
-	Xid    string
-	Seq    int64
+	TC        *TC
+	S         *Session
+	Frame     *wire.Frame
+	Msg       *wire.Msg
+	TxName    string // transaction name the request belongs to ("" when unknown)
+	Xid       string
+	Seq       int64
 	NthOfKind int // 1-based count of requests of this type for this TxName
 }
 
